@@ -96,6 +96,10 @@ def build_ops(case, tier):
         proof = [HX.raw_obs(n) for n in t1.get_proof(k)]
         ops.append(("proof", k))
         meta.append((k, r1, "proof", path_nodes(t1.db, r1, k)))
+        # asked again: the caller has meanwhile overwritten the node lists the first call returned (HX.scribble); a proof is
+        # recomputed from the database, not handed out from something the caller can reach
+        ops.append(("proof", k))
+        meta.append((k, r1, "proof", path_nodes(t1.db, r1, k)))
         variants = [("true", proof, r1)]
         for i in range(len(proof)):
             variants.append(("drop", proof[:i] + proof[i + 1:], r1))
